@@ -2503,6 +2503,25 @@ class Interp:
             recv = recv.get()
         ev = lambda i: self.ev(args[i], env, depth)
         if isinstance(recv, HSet):
+            if m in ("difference", "intersection", "union", "symmetric_difference", "is_subset", "is_superset", "is_disjoint"):
+                o_ = ev(1)
+                o_ = o_.get() if isinstance(o_, Ref) else o_
+                if not isinstance(o_, HSet):
+                    raise Unknown("HashSet::%s with %r" % (m, o_))
+                a_, b_ = list(recv.items), list(o_.items)
+                if m == "difference":
+                    return self.hash_order([x for x in a_ if x not in b_])
+                if m == "intersection":
+                    return self.hash_order([x for x in a_ if x in b_])
+                if m == "union":
+                    return self.hash_order(a_) + self.hash_order([x for x in b_ if x not in a_])
+                if m == "symmetric_difference":
+                    return self.hash_order([x for x in a_ if x not in b_]) + self.hash_order([x for x in b_ if x not in a_])
+                if m == "is_subset":
+                    return all(x in b_ for x in a_)
+                if m == "is_superset":
+                    return all(x in a_ for x in b_)
+                return not any(x in b_ for x in a_)
             if m == "insert":
                 return recv.add(ev(1))
             if m == "contains":
